@@ -138,7 +138,12 @@ def _is_boundary_value(x) -> bool:
             return not is_dyadic(x)
         case Foreign():
             return False
-        case tuple() | list():
+        case list():
+            # always rebuilt: the evaluation may still hold this list (a list
+            # captured from the enclosing scope lives in the compiled
+            # function), and what the caller does with its result is its own
+            return False
+        case tuple():
             return all(_is_boundary_value(v) for v in x)
         case _ if x is UNINIT:
             return True
@@ -169,6 +174,6 @@ def from_value(x: Value):
     Converts a :data:`Value` crossing out of FPy to a Python object.
 
     Dyadic rationals fold to :class:`Float`, :class:`Foreign` unwraps
-    to its payload; containers are rebuilt only when needed.
+    to its payload; lists are always rebuilt, tuples only when needed.
     """
     return x if _is_boundary_value(x) else _cvt_boundary(x)
